@@ -239,6 +239,7 @@ func genValueInterface(n *node) func(*frame) reflect.Value {
 	return func(f *frame) reflect.Value {
 		v := value(f)
 		nod := n
+		direct := true
 
 		for v.IsValid() {
 			// traverse interface indirections to find out concrete type
@@ -248,11 +249,19 @@ func genValueInterface(n *node) func(*frame) reflect.Value {
 			}
 			v = vi.value
 			nod = vi.node
+			direct = false
 		}
 
 		// empty interface, do not wrap.
 		if nod != nil && isEmptyInterface(nod.typ) {
 			return v
+		}
+
+		if direct && v.IsValid() && v.CanAddr() {
+			// The interface holds a copy of the value, not the variable it is read from.
+			c := reflect.New(v.Type()).Elem()
+			c.Set(v)
+			v = c
 		}
 
 		return reflect.ValueOf(valueInterface{nod, v})
